@@ -822,6 +822,23 @@ VARIANTS = [
     ("C15", None, "twin: _computehash reads a handle in fixed-size blocks until the empty read",
      rep_in(FHS, "_computehash", "        for data in stream:\n            hash_obj.update(self._cast_to_bytes(data))\n",
             "        if hasattr(stream, \"read\"):\n            while data := stream.read(65536):\n                hash_obj.update(self._cast_to_bytes(data))\n        else:\n            for data in stream:\n                hash_obj.update(self._cast_to_bytes(data))\n")),
+    ("C07", "C07.d", "cid list locked with a POSIX record lock (lockf) instead of flock",
+     rep_in(FHS, "_update_refs_file", "                    fcntl.flock(file_descriptor, fcntl.LOCK_EX)\n                    new_pid_lines = [", "                    fcntl.lockf(file_descriptor, fcntl.LOCK_EX)\n                    new_pid_lines = [")),
+    ("C20", "C20.b", "per-request format id read from the store-creation option's dest",
+     rep_in(CLI, "main", '    formatid = getattr(args, "object_formatid")\n    if formatid is None:', '    formatid = getattr(args, "formatid")\n    if formatid is None:')),
+    ("C14", "C14.b", "store directories created before the stored algorithm tables were read",
+     chain(rep_in(FHS, "__init__", "            # Default algorithm list for FileHashStore based on config file written\n            self._set_default_algorithms()\n", ""),
+           rep_in(FHS, "__init__", "                self._create_path(self.refs / \"cids\")\n", "                self._create_path(self.refs / \"cids\")\n            self._set_default_algorithms()\n"))),
+    ("C06", "C06.h", "size mismatch on already-stored content re-raised as a checksum mismatch",
+     rep_in(FHS, "_move_and_get_checksums", "                raise NonMatchingObjSize(err_msg) from nmose\n", "                raise NonMatchingChecksum(err_msg) from nmose\n")),
+    ("C18", "C18.g", "metadata directory listed with glob over the unescaped store path",
+     chain(rep_in(FHS, "_get_file_paths", "            files = os.listdir(directory)\n            file_paths = [\n                directory / file for file in files if os.path.isfile(directory / file)\n            ]\n",
+                  "            file_paths = [\n                Path(file) for file in glob.glob(os.path.join(directory, \"*\")) if os.path.isfile(file)\n            ]\n"),
+           rep(FHS, "import atexit\n", "import atexit\nimport glob\n"))),
+    ("C18", None, "twin: metadata directory listed with glob over the escaped directory",
+     chain(rep_in(FHS, "_get_file_paths", "            files = os.listdir(directory)\n            file_paths = [\n                directory / file for file in files if os.path.isfile(directory / file)\n            ]\n",
+                  "            file_paths = [\n                Path(file) for file in glob.glob(os.path.join(glob.escape(directory), \"*\")) if os.path.isfile(file)\n            ]\n"),
+           rep(FHS, "import atexit\n", "import atexit\nimport glob\n"))),
     ("C13", "C13.h", "return inside finally swallows the error",
      rep_in(FHS, "_delete_object_only", "        finally:\n            self._release_object_locked_cids(cid)\n", "        finally:\n            self._release_object_locked_cids(cid)\n            return\n")),
 ]
@@ -1001,4 +1018,35 @@ def replay_seeded(prop, A, jobs=16):
             out["reported"] += 1
         else:
             out["missed"].append(f"seeded change {sid} is no longer reported by {prop} (reported: nothing; {err or problems or floors or ''})")
+    return out
+
+
+def replay_benign(prop, A, jobs=16):
+    """the behaviour-preserving refactorings collected in /verif/benign (each written by an independent agent, each leaving the
+    250 tests green), applied in memory to the current source: none may be reported under `prop`"""
+    import glob
+    import os
+    base = read_sources(A.p.root)
+    root = os.path.join(os.path.dirname(os.path.dirname(os.path.abspath(__file__))), "benign")
+    todo, skipped = [], []
+    for d in sorted(glob.glob(os.path.join(root, "*"))):
+        pp = os.path.join(d, "patch.diff")
+        if not os.path.exists(pp):
+            continue
+        src = apply_unified_diff(base, open(pp).read())
+        if src is None:
+            skipped.append(os.path.basename(d))
+            continue
+        todo.append((prop, None, os.path.basename(d), len(todo), src))
+    res = []
+    if todo:
+        import multiprocessing as mp_
+        with mp_.get_context("fork").Pool(min(jobs, len(todo))) as pool:
+            res = pool.map(_run_one, todo)
+    out = {"replayed": len(todo), "silent": 0, "not_applicable": skipped, "missed": []}
+    for (p, e, bid, i, src), (idx, found, problems, floors, err) in zip(todo, res):
+        if not found and not err and not problems and not floors:
+            out["silent"] += 1
+        else:
+            out["missed"].append(f"refactoring {bid} (behaviour-preserving) is not silent under {prop}: {found or err or problems or floors}")
     return out
